@@ -323,7 +323,7 @@ def run(ck):
     ck.rule = ("macro programs from a grammar: 0..4 parameters, bodies of byte-tracing @db statements using parameters zero or "
                "several times (bare, in arithmetic, under unary operators), brace-grouped and single-token arguments (incl. "
                "arguments with commas, and arguments that are themselves macro invocations), macros invoking macros, macros "
-               "defined by macros (nesting <= 3, acyclic), double definitions.  O: the implementation's bytes for the program and "
+               "defined by macros (nesting <= 3, acyclic), empty bodies, double definitions; a multi-file family in which a file of another directory invokes macros and the including file then looks up files of its own.  O: the implementation's bytes for the program and "
                "for its reference expansion (textual substitution computed in the driver) must be identical; K: the full pipeline "
                "model vs the implementation.  non-trivial = at least one invocation with a parameterised body.")
     harness, model = asmk.setup(ck, PROP)
@@ -373,6 +373,27 @@ def run(ck):
                 a.canon() + ((" " + (a.msg or "").replace("\n", " ")[-90:]) if not a.ok else ""), want, p),
                 {"mode": "asm", "arch": "z80", "source": p, "reference_expansion": q, "harness_case": asm_case("z80", text=p), "expected": want})
             if sum(1 for v in ck.violations if not v[2]) >= 3:
+                break
+    # an invocation is its body written in place - also for what stays behind it: after a file of another directory has invoked
+    # macros (with an empty body, a body, parameters), the including file still looks its files up where it did before
+    for body0, body1 in (("", ""), ("", "@db pq"), ("@db 9", ""), ("@db 9", "@db pq")):
+        for call in ("emv0", "emv1 { 5 }", "emv0\nemv1 6\nemv0"):
+            mfiles = {"/w/main.asm": "@macro emv0, 0\n%s\n@endmacro\n@macro emv1, 1, pq\n%s\n@endmacro\n@db 1\n@include \"sub/part.asm\"\n@db 2\n@incbin \"blob.bin\"\n@include \"tail.asm\"\n" % (body0, body1),
+                      "/w/sub/part.asm": "@db 3\n%s\n@db 4\n" % call, "/w/blob.bin": b"\xaa", "/w/sub/blob.bin": b"\xbb",
+                      "/w/tail.asm": "@db $a1\n", "/w/sub/tail.asm": "@db $b1\n"}
+            pasted = dict(mfiles)
+            inl = call
+            for nm, bd in (("emv1 { 5 }", body1.replace("pq", "5")), ("emv1 6", body1.replace("pq", "6")), ("emv0", body0)):
+                inl = inl.replace(nm, bd)
+            pasted["/w/sub/part.asm"] = "@db 3\n%s\n@db 4\n" % inl
+            ra, rb = [AsmResult(r) for r in run_cases(harness, [asm_case("z80", files=mfiles), asm_case("z80", files=pasted)], shards=1)]
+            ck.evaluations += 2
+            ck.nontriv("multi-file:" + call + body0 + body1)
+            if ra.canon() != rb.canon() or not ra.ok or not ra.bytes.endswith(b"\xaa\xa1"):
+                ck.violation("macros invoked in sub/part.asm (%r, bodies %r / %r): the program gives %s, with the bodies written in place %s (the includer's own blob.bin / tail.asm hold aa / a1)" % (
+                    call, body0, body1, ra.canon(), rb.canon()),
+                    {"mode": "asm", "arch": "z80", "files": {k: (v if isinstance(v, str) else v.hex()) for k, v in mfiles.items()},
+                     "harness_case": asm_case("z80", files=mfiles), "expected": rb.canon()})
                 break
     # K: the full model
     kc = [{"arch": "z80", "files": {"/w/main.asm": p}} for p in cases[: (6000 if thorough else 1200)]]
